@@ -64,10 +64,15 @@ func (c *Ctx) Done() <-chan struct{}       { return c.inner.Done() }
 func (c *Ctx) Value(k any) any             { return c.inner.Value(k) }
 func (c *Ctx) Err() error {
 	if err := c.inner.Err(); err != nil {
+		vsched.NoteObserveCancel()
 		return err // stable: independent of every other operation
 	}
 	vsched.YieldSkip("ctx.Err", 1)
-	return c.inner.Err()
+	err := c.inner.Err()
+	if err != nil {
+		vsched.NoteObserveCancel()
+	}
+	return err
 }
 
 func wrap(inner context.Context) Context { return &Ctx{inner: inner} }
@@ -78,6 +83,7 @@ func WithCancel(parent Context) (Context, CancelFunc) {
 		if inner.Err() == nil {
 			vsched.YieldSkip("cancel", 1)
 		}
+		vsched.NoteCancel()
 		cancel()
 	}
 }
@@ -88,6 +94,7 @@ func WithCancelCause(parent Context) (Context, CancelCauseFunc) {
 		if inner.Err() == nil {
 			vsched.YieldSkip("cancel", 1)
 		}
+		vsched.NoteCancel()
 		cancel(cause)
 	}
 }
@@ -101,6 +108,7 @@ func WithDeadline(parent Context, d time.Time) (Context, CancelFunc) {
 		if inner.Err() == nil {
 			vsched.YieldSkip("cancel", 1)
 		}
+		vsched.NoteCancel()
 		cancel()
 	}
 }
@@ -118,6 +126,7 @@ func WithDeadlineCause(parent Context, d time.Time, cause error) (Context, Cance
 		if inner.Err() == nil {
 			vsched.YieldSkip("cancel", 1)
 		}
+		vsched.NoteCancel()
 		cancel()
 	}
 }
